@@ -34,3 +34,36 @@ Proof. exact idgen_run_spec. Qed.
 Check idgen_run_total : forall k s, s + N.of_nat k <= U64_MAX ->
   idgen_run k s = Some (s + N.of_nat k, map (fun i => tag_of (s + 1 + N.of_nat i)) (seq 0 k)).
 Print Assumptions idgen_run_total.
+
+(* the matching half, on the client machine (Client.v): a stream that is receiving finishes on a
+   frame iff that frame is a tagged completion whose tag is byte-for-byte the command's own; any
+   other completion (stale, case-flipped, a prefix or an extension, any other tag) is handed
+   through as an ordinary item and the stream keeps receiving *)
+From TI Require Import Grammar Nom Interp Natives Client ClientProofs.
+Theorem c11_exact_match : forall c s c' s' r, s_state s = RsReceiving -> rs_step c s = (c', s', r) ->
+  exists rf' o rd', fr_poll (c_rf c) (io_rd (c_io c)) = (rf', o, rd') /\ c_rf c' = rf' /\ io_rd (c_io c') = rd' /\
+    (forall raw v, o = PItem (IFrame raw v) ->
+       r = Some o /\ (s_state s' = RsDone <-> exists t, done_tag v = Some t /\ t = s_tag s)) /\
+    (o = PNone -> r = Some (PItem IErrEnded) /\ s_state s' = RsReceiving) /\
+    (forall e, o = PItem e -> (forall raw v, e <> IFrame raw v) -> r = Some o /\ s_state s' = RsReceiving) /\
+    (o = PPending -> r = Some PPending /\ s_state s' = RsReceiving).
+Proof. exact exact_match_lemma. Qed.
+Check c11_exact_match : forall c s c' s' r, s_state s = RsReceiving -> rs_step c s = (c', s', r) ->
+  exists rf' o rd', fr_poll (c_rf c) (io_rd (c_io c)) = (rf', o, rd') /\ c_rf c' = rf' /\ io_rd (c_io c') = rd' /\
+    (forall raw v, o = PItem (IFrame raw v) ->
+       r = Some o /\ (s_state s' = RsDone <-> exists t, done_tag v = Some t /\ t = s_tag s)) /\
+    (o = PNone -> r = Some (PItem IErrEnded) /\ s_state s' = RsReceiving) /\
+    (forall e, o = PItem e -> (forall raw v, e <> IFrame raw v) -> r = Some o /\ s_state s' = RsReceiving) /\
+    (o = PPending -> r = Some PPending /\ s_state s' = RsReceiving).
+Print Assumptions c11_exact_match.
+
+(* the tag a command is issued with is the generator's next tag, and it is what goes on the wire *)
+Theorem c11_call_uses_next_tag : forall c args c' s, call c args = Some (c', s) ->
+  idgen_next (c_next c) = Some (c_next c', s_tag s) /\ s_args s = args /\ s_state s = RsStart.
+Proof.
+  intros c args c' s H. unfold call in H. destruct (idgen_next (c_next c)) as [[n' tag]|]; [|discriminate].
+  injection H as <- <-. auto.
+Qed.
+Check c11_call_uses_next_tag : forall c args c' s, call c args = Some (c', s) ->
+  idgen_next (c_next c) = Some (c_next c', s_tag s) /\ s_args s = args /\ s_state s = RsStart.
+Print Assumptions c11_call_uses_next_tag.
